@@ -53,14 +53,16 @@ package jsonschema
 //@   && (s.Pattern != "" ==> info.pattern != nil) \
 //@   && (s.DynamicRef != "" ==> ((info.resolvedDynamicRef == nil) != (info.dynamicRefAnchor == ""))) \
 //@   && (info.resolvedDynamicRef != nil ==> inRS(rs, info.resolvedDynamicRef)) \
-//@   && inRS(rs, info.base) \
-//@   && (forall a string :: has(info.anchors, a) ==> inRS(rs, info.anchors[a].schema)) \
-//@   && (forall re *regexp.Regexp :: has(info.patternProperties, re) ==> re != nil && inRS(rs, info.patternProperties[re]))
+//@   && inRS(rs, info.base) && rs.resolvedInfos[info.base] != nil && isold(rs.resolvedInfos[info.base]) \
+//@   && (forall a string {has(rs.resolvedInfos[info.base].anchors, a)} :: has(rs.resolvedInfos[info.base].anchors, a) ==> rs.resolvedInfos[info.base].anchors[a].schema != nil) \
+//@   && (forall a string {has(info.anchors, a)} :: has(info.anchors, a) ==> inRS(rs, info.anchors[a].schema)) \
+//@   && (forall re *regexp.Regexp {has(info.patternProperties, re)} :: has(info.patternProperties, re) ==> re != nil && inRS(rs, info.patternProperties[re]))
 
 //@ pred constsShaped(s *Schema) = (forall i int {s.Enum[i]} :: 0 <= i && i < len(s.Enum) ==> shaped(rvof(s.Enum[i]))) \
 //@   && (s.Const != nil ==> shaped(rvof(*s.Const)))
 //@ pred wfS(rs *Resolved, s *Schema) = s != nil && infoOK(rs, s, rs.resolvedInfos[s]) && childrenIn(rs, s) && constsShaped(s)
 
+//@ pred dynAnchorAt(rs *Resolved, s *Schema, a string) = has(rs.resolvedInfos[rs.resolvedInfos[s].base].anchors, a) && rs.resolvedInfos[rs.resolvedInfos[s].base].anchors[a].dynamic
 //@ pred wfRS(rs *Resolved) = rs != nil && isold(rs) && inRS(rs, rs.root) \
 //@   && (forall s *Schema {rs.resolvedInfos[s]} :: isold(s) && has(rs.resolvedInfos, s) ==> wfS(rs, s))
 
@@ -208,6 +210,17 @@ package jsonschema
 //@   ensures annsOK: callerAnns != nil ==> annsOwned(callerAnns)
 //@   ensures mapsI: callerAnns != nil ==> (callerAnns.evaluatedIndexes == old(callerAnns.evaluatedIndexes) || fresh(callerAnns.evaluatedIndexes))
 //@   ensures mapsP: callerAnns != nil ==> (callerAnns.evaluatedProperties == old(callerAnns.evaluatedProperties) || fresh(callerAnns.evaluatedProperties))
+//@   reject[C01] "type:" (schema.Type != "" && !tmatch(schema.Type, typeName(jv(instance)))) || (schema.Type == "" && !isnil(schema.Types) && (forall i int {schema.Types[i]} :: 0 <= i && i < len(schema.Types) ==> !tmatch(schema.Types[i], typeName(jv(instance)))))
+//@   reject[C01] "minimum:" isJNum(jv(instance)) && schema.Minimum != nil && jn(jv(instance)) < *schema.Minimum
+//@   reject[C01] "maximum:" isJNum(jv(instance)) && schema.Maximum != nil && jn(jv(instance)) > *schema.Maximum
+//@   reject[C01] "exclusiveMinimum:" isJNum(jv(instance)) && schema.ExclusiveMinimum != nil && jn(jv(instance)) <= *schema.ExclusiveMinimum
+//@   reject[C01] "exclusiveMaximum:" isJNum(jv(instance)) && schema.ExclusiveMaximum != nil && jn(jv(instance)) >= *schema.ExclusiveMaximum
+//@   reject[C01] "minLength:" isJStr(jv(instance)) && schema.MinLength != nil && runes(js(jv(instance))) < *schema.MinLength
+//@   reject[C01] "maxLength:" isJStr(jv(instance)) && schema.MaxLength != nil && runes(js(jv(instance))) > *schema.MaxLength
+//@   reject[C01] "minItems:" isJArr(jv(instance)) && schema.MinItems != nil && jalen(jv(instance)) < *schema.MinItems
+//@   reject[C01] "maxItems:" isJArr(jv(instance)) && schema.MaxItems != nil && jalen(jv(instance)) > *schema.MaxItems
+//@   reject[C01] "minProperties:" isJObj(jv(instance)) && schema.MinProperties != nil && jocard(jv(instance)) < *schema.MinProperties
+//@   reject[C01] "maxProperties:" isJObj(jv(instance)) && schema.MaxProperties != nil && jocard(jv(instance)) > *schema.MaxProperties
 //@   noreads Schema: Title, Description, Comment, Default, Examples, Deprecated, ReadOnly, WriteOnly, Format, ContentEncoding, ContentMediaType, ContentSchema, Defs, Definitions, Extra, PropertyOrder, Vocabulary
 //@   loopinv rsframe: st.rs == rs
 //@   ensures[C07] noleak1: err != nil && callerAnns != nil ==> callerAnns.allItems == old(callerAnns.allItems) && callerAnns.endIndex == old(callerAnns.endIndex) && callerAnns.allProperties == old(callerAnns.allProperties)
@@ -224,6 +237,16 @@ package jsonschema
 //@   loopinv stackelems: new(st.stack) && fresh(st.stack) && (forall i int {st.stack[i]} :: 0 <= i && i < len(stk0) ==> st.stack[i] == old(stk0[i])) && st.stack[len(stk0)] == schema
 //@   loopinv stackrs: new(st.stack) && fresh(st.stack) && (forall i int {st.stack[i]} :: 0 <= i && i < len(st.stack) ==> inRS(rs, st.stack[i]))
 //@   loopinv anns: annsLocal(anns)
+//@   loop "range schema.AnyOf"
+//@     exit[C01,C07] visitall: $idx >= len(schema.AnyOf)
+//@   loop "range schema.OneOf"
+//@     exit[C01,C07] visitall: $idx >= len(schema.OneOf) || okSchema != nil
+//@   loop "range st.stack"
+//@     invariant[C06] none: dynamicSchema == nil && (forall k int {st.stack[k]} :: 0 <= k && k <= $idx ==> !dynAnchorAt(rs, st.stack[k], schemaInfo.dynamicRefAnchor))
+//@     exit[C06] nomatch: $idx >= len(st.stack) ==> dynamicSchema == nil && (forall k int {st.stack[k]} :: 0 <= k && k < len(st.stack) ==> !dynAnchorAt(rs, st.stack[k], schemaInfo.dynamicRefAnchor))
+//@     exit[C06] match: $idx < len(st.stack) ==> 0 <= $idx && dynAnchorAt(rs, st.stack[$idx], schemaInfo.dynamicRefAnchor)
+//@     exit[C06] target: $idx < len(st.stack) ==> dynamicSchema == rs.resolvedInfos[rs.resolvedInfos[st.stack[$idx]].base].anchors[schemaInfo.dynamicRefAnchor].schema
+//@     exit[C06] outermost: $idx < len(st.stack) ==> (forall k int {st.stack[k]} :: 0 <= k && k < $idx ==> !dynAnchorAt(rs, st.stack[k], schemaInfo.dynamicRefAnchor))
 //@   loop "range instance.Len()#2"
 //@     invariant buckets: new(hashes) && (forall h int {has(hashes, h)} :: has(hashes, h) ==> newOrNil(hashes[h]) && allocated(hashes[h]) && (isnil(hashes[h]) || fresh(hashes[h])))
 //@     invariant hashes: new(hashes) && (forall h int, k int :: has(hashes, h) ==> newOrNil(hashes[h]) && allocated(hashes[h]) && (0 <= k && k < len(hashes[h]) ==> 0 <= hashes[h][k] && hashes[h][k] < rvlen(instance)))
@@ -242,6 +265,7 @@ package jsonschema
 //@ contract numPropertiesBounds(v, isRequired)
 //@   requires kind: kind(v) == 21 || kind(v) == 25
 //@   pure
+//@   ensures[C01,C08] card: kind(v) == 21 ==> result0 == rvlen(v) && result1 == rvlen(v)
 
 //@ contract structPropertiesOf(t)
 //@   requires kind: tkind(t) == 25
